@@ -4,7 +4,7 @@ from ..rules import calls_to, calls_where, bool_edges, self_field_of_call, must_
 from ..facts import callee_path
 from . import c03
 
-TEXT = ("Track reuses the sound state machine: the set of manager states reachable through the methods Track actually calls (extracted from MIR) must be decodable by TrackShared::state() without reaching its panic arm; the decode table matches the enums; a non-advancing track returns through zero-fill before touching children, sounds, effects or sends; the removal predicate has the documented path conditions and both track storages use it; handles mark removal on drop. Frozen positions and fade values are not decided. Every storage is swept on every path of every callback. The track polls pause before resume, as both kinds of sound do. Track handles write pause / resume commands on every path; removal is tested before new resources are picked up. What the sweep takes out has somewhere to go (the unused ring has the storage's capacity); the track's time-keeping advances by the time its slice covers. A pause / resume the track reads reaches its state machine in every state and is polled in every callback.")
+TEXT = ("Track reuses the sound state machine: the set of manager states reachable through the methods Track actually calls (extracted from MIR) must be decodable by TrackShared::state() without reaching its panic arm; the decode table matches the enums; a non-advancing track returns through zero-fill before touching children, sounds, effects or sends; the removal predicate has the documented path conditions and both track storages use it; handles mark removal on drop. Frozen positions and fade values are not decided. Every storage is swept on every path of every callback. The track polls pause before resume, as both kinds of sound do. Track handles write pause / resume commands on every path; removal is tested before new resources are picked up. What the sweep takes out has somewhere to go (the unused ring has the storage's capacity); the track's time-keeping advances by the time its slice covers. A pause / resume the track reads reaches its state machine in every state and is polled in every callback. Track handles write their arguments as they are (no start time moved into the tween on the game thread).")
 TECHNIQUE = 'MIR state-machine reachability + decode-table / must-pass / path-predicate rules'
 
 PSM = c03.PSM
